@@ -82,7 +82,9 @@ fn dup_logical(rng: &mut Rng, i: u64, codec: u8) -> Logical {
         // one very long run whose length sits on a power-of-two / integer-width boundary (the last one beyond 2^20)
         let n = [255u64, 256, 257, 65_535, 65_536, 65_537, 70_000, 131_073, 1_048_613][((i / 24) % 9) as usize];
         l.tiles.clear();
-        let start = rng.below(1 << 30);
+        // (every third time the run ends on the very last tile id, u64::MAX)
+        let at_top = (i / 24) % 3 == 0 && n <= 70_000;
+        let start = if at_top { u64::MAX - (n - 1) } else { rng.below(1 << 30) };
         // short contents: the oracle hashes every tile's content
         let a = Rc::new(pool[0].iter().take(24).copied().collect::<Vec<u8>>());
         let mut bb = a.as_ref().clone();
@@ -90,8 +92,12 @@ fn dup_logical(rng: &mut Rng, i: u64, codec: u8) -> Logical {
         for k in 0..n {
             l.tiles.insert(start + k, a.clone());
         }
-        l.tiles.insert(start + n, Rc::new(bb));
-        l.class = format!("long-run-{n}");
+        if at_top {
+            l.tiles.insert(start - 2, Rc::new(bb));
+        } else {
+            l.tiles.insert(start + n, Rc::new(bb));
+        }
+        l.class = format!("long-run-{n}{}", if at_top { "-ending-on-u64-max" } else { "" });
         return l;
     }
     match i % 6 {
